@@ -43,6 +43,10 @@ pub fn gen_scenario(r: &mut Rng, big: bool) -> Scenario {
             args.push("-L".into());
         }
     }
+    // the position-dependent build of the target (ET_EXEC: the main program is linked at its run-time address, load bias 0)
+    if Rng::new(r.0 ^ 0x1f83_d9ab_fb41_bd6b).chance(1, 4) {
+        args.push("--nopie".into());
+    }
     if r.chance(1, 2) {
         args.push("-F".into());
         args.push(r.below(40).to_string());
@@ -119,7 +123,7 @@ pub fn gen_cfg(r: &mut Rng, t: &Target) -> DumpCfg {
     let bt = *r.pick(&blocked);
     cfg.blamed = bt.tid;
     if r.chance(1, 2) {
-        let mut c = CrashSpec { tid: bt.tid, signo: *r.pick(&[11u32, 6, 7, 4]), code: r.below(5) as i32, addr: r.next(), fp_seed: r.next(), ..Default::default() };
+        let mut c = CrashSpec { tid: bt.tid, signo: *r.pick(&[11u32, 6, 7, 4]), code: *Rng::new(r.0 ^ 0x5be0_cd19_137e_2179).pick(&[0i32, 1, 2, 3, 4, 0x80, -6, -6, -1, -2, -60, i32::MIN, i32::MAX]), addr: { let _ = r.below(5); r.next() }, fp_seed: r.next(), ..Default::default() };
         for i in 0..23 {
             c.gregs[i] = r.next() as i64;
         }
